@@ -11,6 +11,9 @@ thread_local! {
     /// this thread is refused (returns null).
     static REFUSE_FROM: Cell<usize> = const { Cell::new(0) };
     static REFUSED: Cell<usize> = const { Cell::new(0) };
+    /// While > 0: countdown; the allocation request that brings it to 0 is refused
+    /// (exactly one refusal), whatever its size.
+    static REFUSE_NTH: Cell<usize> = const { Cell::new(0) };
     /// Live bytes allocated by this thread while tracking is on.
     static TRACK: Cell<bool> = const { Cell::new(false) };
     static LIVE: Cell<isize> = const { Cell::new(0) };
@@ -23,6 +26,17 @@ unsafe impl GlobalAlloc for CountingAlloc {
         let refuse = REFUSE_FROM.try_with(|r| r.get()).unwrap_or(0);
 
         if refuse > 0 && layout.size() >= refuse {
+            let _ = REFUSED.try_with(|r| r.set(r.get() + 1));
+            return std::ptr::null_mut();
+        }
+
+        let nth = REFUSE_NTH.try_with(|r| {
+            let n = r.get();
+            if n > 0 { r.set(n - 1); }
+            n
+        }).unwrap_or(0);
+
+        if nth == 1 {
             let _ = REFUSED.try_with(|r| r.set(r.get() + 1));
             return std::ptr::null_mut();
         }
@@ -81,9 +95,16 @@ pub fn refuse_from(min_bytes: usize) {
     REFUSED.with(|r| r.set(0));
 }
 
-/// Lifts [refuse_from] and returns how many requests were refused.
+/// Refuse exactly the n-th (1-based) allocation request of this thread from now.
+pub fn refuse_nth(n: usize) {
+    REFUSE_NTH.with(|r| r.set(n));
+    REFUSED.with(|r| r.set(0));
+}
+
+/// Lifts [refuse_from] / [refuse_nth] and returns how many requests were refused.
 pub fn allow_all() -> usize {
     REFUSE_FROM.with(|r| r.set(0));
+    REFUSE_NTH.with(|r| r.set(0));
     REFUSED.with(|r| r.get())
 }
 
